@@ -949,10 +949,13 @@ package core
 // (that passes the filter) is listed; without a filter there is exactly one element per registered name. The loop
 // invariants name their witnesses through two ghost arrays (position -> key, key -> position) updated per iteration.
 //@ func (*registrationServiceImpl).GetExternalAgents$1
+//@   requires a != nil
 //@   modifies agents
 //@   ensures [appended] len(agents) == old(len(agents)) + 1 && agents[old(len(agents))] == a && (forall i int :: 0 <= i && i < old(len(agents)) ==> agents[i] == old(agents[i]))
 //@ func (*registrationServiceImpl).GetExternalAgents
 //@   modifies nothing
+//@   ensures [no-nil-element] forall i int :: 0 <= i && i < len(r0) ==> r0[i] != nil
+//@   loop visit s.externalAgents: invariant forall i int :: 0 <= i && i < len(agents) ==> agents[i] != nil
 //@   ensures [one-per-registered] len(r0) == len(s.externalAgents.byName)
 //@   loop visit s.externalAgents: invariant len(agents) == card(visited)
 //@   ensures [only-registered] forall i int :: 0 <= i && i < len(r0) ==> (exists k string :: has(s.externalAgents.byName, k) && s.externalAgents.byName[k] == r0[i])
@@ -964,10 +967,13 @@ package core
 //@   loop visit s.externalAgents: invariant forall i int :: 0 <= i && i < len(agents) ==> visited[keyAt[i]] && s.externalAgents.byName[keyAt[i]] == agents[i]
 //@   loop visit s.externalAgents: invariant forall k string :: visited[k] ==> 0 <= posOf[k] && posOf[k] < len(agents) && agents[posOf[k]] == s.externalAgents.byName[k]
 //@ func (*registrationServiceImpl).GetInternalAgents$1
+//@   requires a != nil
 //@   modifies agents
 //@   ensures [appended] len(agents) == old(len(agents)) + 1 && agents[old(len(agents))] == a && (forall i int :: 0 <= i && i < old(len(agents)) ==> agents[i] == old(agents[i]))
 //@ func (*registrationServiceImpl).GetInternalAgents
 //@   modifies nothing
+//@   ensures [no-nil-element] forall i int :: 0 <= i && i < len(r0) ==> r0[i] != nil
+//@   loop visit s.internalAgents: invariant forall i int :: 0 <= i && i < len(agents) ==> agents[i] != nil
 //@   ensures [one-per-registered] len(r0) == len(s.internalAgents.byName)
 //@   loop visit s.internalAgents: invariant len(agents) == card(visited)
 //@   ensures [only-registered] forall i int :: 0 <= i && i < len(r0) ==> (exists k string :: has(s.internalAgents.byName, k) && s.internalAgents.byName[k] == r0[i])
@@ -979,10 +985,13 @@ package core
 //@   loop visit s.internalAgents: invariant forall i int :: 0 <= i && i < len(agents) ==> visited[keyAt[i]] && s.internalAgents.byName[keyAt[i]] == agents[i]
 //@   loop visit s.internalAgents: invariant forall k string :: visited[k] ==> 0 <= posOf[k] && posOf[k] < len(agents) && agents[posOf[k]] == s.internalAgents.byName[k]
 //@ func (*ExternalAgentsMap).AsArray$1
+//@   requires a != nil
 //@   modifies agents
 //@   ensures [appended] len(agents) == old(len(agents)) + 1 && agents[old(len(agents))] == a && (forall i int :: 0 <= i && i < old(len(agents)) ==> agents[i] == old(agents[i]))
 //@ func (*ExternalAgentsMap).AsArray
 //@   modifies nothing
+//@   ensures [no-nil-element] forall i int :: 0 <= i && i < len(r0) ==> r0[i] != nil
+//@   loop visit m: invariant forall i int :: 0 <= i && i < len(agents) ==> agents[i] != nil
 //@   ensures [one-per-registered] len(r0) == len(m.byName)
 //@   loop visit m: invariant len(agents) == card(visited)
 //@   ensures [only-registered] forall i int :: 0 <= i && i < len(r0) ==> (exists k string :: has(m.byName, k) && m.byName[k] == r0[i])
@@ -994,10 +1003,13 @@ package core
 //@   loop visit m: invariant forall i int :: 0 <= i && i < len(agents) ==> visited[keyAt[i]] && m.byName[keyAt[i]] == agents[i]
 //@   loop visit m: invariant forall k string :: visited[k] ==> 0 <= posOf[k] && posOf[k] < len(agents) && agents[posOf[k]] == m.byName[k]
 //@ func (*InternalAgentsMap).AsArray$1
+//@   requires a != nil
 //@   modifies agents
 //@   ensures [appended] len(agents) == old(len(agents)) + 1 && agents[old(len(agents))] == a && (forall i int :: 0 <= i && i < old(len(agents)) ==> agents[i] == old(agents[i]))
 //@ func (*InternalAgentsMap).AsArray
 //@   modifies nothing
+//@   ensures [no-nil-element] forall i int :: 0 <= i && i < len(r0) ==> r0[i] != nil
+//@   loop visit m: invariant forall i int :: 0 <= i && i < len(agents) ==> agents[i] != nil
 //@   ensures [one-per-registered] len(r0) == len(m.byName)
 //@   loop visit m: invariant len(agents) == card(visited)
 //@   ensures [only-registered] forall i int :: 0 <= i && i < len(r0) ==> (exists k string :: has(m.byName, k) && m.byName[k] == r0[i])
@@ -1015,6 +1027,8 @@ package core
 //@   ensures [skipped-otherwise] !has(a.events, eventType) ==> agents == old(agents)
 //@ func (*registrationServiceImpl).GetSubscribedExternalAgents
 //@   modifies nothing
+//@   ensures [no-nil-element] forall i int :: 0 <= i && i < len(r0) ==> r0[i] != nil
+//@   loop visit s.externalAgents: invariant forall i int :: 0 <= i && i < len(agents) ==> agents[i] != nil
 //@   ensures [at-most-one-per-registered] len(r0) <= len(s.externalAgents.byName)
 //@   loop visit s.externalAgents: invariant len(agents) <= card(visited)
 //@   ensures [only-registered] forall i int :: 0 <= i && i < len(r0) ==> (exists k string :: has(s.externalAgents.byName, k) && s.externalAgents.byName[k] == r0[i]) && has(r0[i].events, eventType)
@@ -1032,6 +1046,8 @@ package core
 //@   ensures [skipped-otherwise] !has(a.events, eventType) ==> agents == old(agents)
 //@ func (*registrationServiceImpl).GetSubscribedInternalAgents
 //@   modifies nothing
+//@   ensures [no-nil-element] forall i int :: 0 <= i && i < len(r0) ==> r0[i] != nil
+//@   loop visit s.internalAgents: invariant forall i int :: 0 <= i && i < len(agents) ==> agents[i] != nil
 //@   ensures [at-most-one-per-registered] len(r0) <= len(s.internalAgents.byName)
 //@   loop visit s.internalAgents: invariant len(agents) <= card(visited)
 //@   ensures [only-registered] forall i int :: 0 <= i && i < len(r0) ==> (exists k string :: has(s.internalAgents.byName, k) && s.internalAgents.byName[k] == r0[i]) && has(r0[i].events, eventType)
